@@ -89,11 +89,16 @@ theorem ensureNoSymlinks_spec (fs : FS) (hw : WF fs) (root p : P) (h : ensureNoS
 
 /-- *the guard makes the lexical model exact*: if the destination is not below (or itself) a symbolic link and the
     guard succeeds for `p`, kernel-style path resolution — which follows symbolic links, `Ex.resolve` — of `p` is `p` -/
-theorem guard_makes_lexical (fs : FS) (hw : WF fs) (root p : P) (hp : root <+: p)
+theorem guard_makes_lexical (fs : FS) (hw : WF fs) (root p : P) (hp : root <+: p) (hd : NoDots p)
     (hroot : ∀ j, j ≤ root.length → ∀ t, fs.get (root.take j) ≠ some (.symlink t))
     (h : ensureNoSymlinks fs root p = true) (fuel : Nat) (hf : p.length < fuel) :
     resolve fs fuel [] p = some p :=
-  resolve_lexical fs p fuel hf (noSymlink_all fs hw root p hp hroot h)
+  resolve_lexical fs p hd fuel hf (noSymlink_all fs hw root p hp hroot h)
+
+/-- the paths the extractors hand to the guard and the system calls have no `.`/`..`/empty component, so the
+    previous theorem applies to them -/
+theorem joined_paths_clean (root : P) (name : List Nat) (hr : NoDots root) : NoDots (cleanJoin root name) :=
+  cleanJoin_nodots root name hr
 
 /-- *error propagation, one entry*: an entry whose payload cannot be copied in full (stream ends early, checksum
     error, failed write) makes its iteration fail, in both extractors -/
@@ -109,13 +114,14 @@ theorem payload_error_propagates (fs : FS) (root : P) (mask : Nat) (es : List En
     ((e.short = true ∧ e.kind ≠ .dir) → (zipExtract fs root mask es).2 = false) := by
   constructor
   · intro h
-    apply extractWith_false_of_mem _ e _ he
+    refine extractWith_false_of_mem (fun fs e => tarOne fs root mask e) e ?_ es he fs
     intro fs'
     rcases h with h | ⟨h1, h2⟩
     · simp [tarOne, h]
     · exact tarOne_short fs' root mask e h1 h2
   · rintro ⟨h1, h2⟩
-    exact extractWith_false_of_mem _ e (fun fs' => zipOne_short fs' root mask e h1 h2) _ he
+    exact extractWith_false_of_mem (fun fs e => zipOne fs root mask e) e
+      (fun fs' => zipOne_short fs' root mask e h1 h2) es he fs
 
 /-- the first failing entry stops the extraction: the result is the state that entry left, later entries are not
     looked at -/
@@ -124,32 +130,81 @@ theorem first_error_stops (one : FS → Entry → FS × Bool) (fs fs1 : FS) (es1
     extractWith one fs (es1 ++ e :: es2) = ((one fs1 e).1, false) :=
   extractWith_stop one fs fs1 es1 es2 e h1 h2
 
-/-- *reproduction, one entry*: an iteration that returns no error has put the entry at its cleaned path inside the
+/-- *reproduction, one entry* (tar loop): an iteration that returns no error has put the entry at its cleaned path inside the
     destination: a regular file with exactly the payload (and, when the file is new, the recorded permissions masked),
     a directory, a symbolic link with the recorded target, a hard link sharing the inode of its (in-root) target -/
-theorem entry_reproduced (fs : FS) (root : P) (mask : Nat) (e : Entry) (hio : InoOK fs) :
-    ((tarOne fs root mask e).2 = true → Post root mask e fs (tarOne fs root mask e).1) ∧
-    ((zipOne fs root mask e).2 = true → ZPost root mask e fs (zipOne fs root mask e).1) :=
-  ⟨tarOne_post fs root mask e hio, zipOne_post fs root mask e hio⟩
+theorem entry_reproduced (fs : FS) (root : P) (hr : GoodPath root) (hroot : root ≠ []) (mask : Nat) (e : Entry)
+    (hio : InoOK fs) (hok : (tarOne fs root mask e).2 = true) : Post root mask e fs (tarOne fs root mask e).1 :=
+  tarOne_post fs root hr hroot mask e hio hok
 
 /-- full reproduction statement (kept visible): for an archive whose cleaned entry paths are pairwise distinct,
     extracted without error into an empty or missing destination, every entry is present at the end exactly as
     recorded -/
 def extract_reproduces_Statement : Prop :=
-  ∀ (root : P) (mask : Nat) (es : List Entry) (fs : FS), GoodPath root → WF fs → InoOK fs →
+  ∀ (root : P) (mask : Nat) (es : List Entry) (fs : FS), GoodPath root → root ≠ [] → WF fs → InoOK fs →
     (∀ q, root <+: q → q ≠ root → fs.get q = none) →
     (es.map (fun e => cleanJoin root e.name)).Pairwise (· ≠ ·) →
     (tarExtract fs root mask es).2 = true →
     ∀ e ∈ es, Final root mask e (tarExtract fs root mask es).1
 
-/-- *reproduction, whole archive* (partial: the no-conflict condition is semantic instead of syntactic): if the
+/-- *reproduction, whole archive* (partial: tar loop only — the zip loop shares `writeFile`/`mkdirAll`/`symlinkAt`
+    and the same argument applies, it is covered by the correspondence run only; and the no-conflict condition is
+    semantic instead of syntactic): if the
     extraction returns no error and no regular-file entry found its path already present (`FreshRun`: no duplicates, no
     overwrite through a hard link), then at the end every entry of the archive is present as recorded: files with
     their complete payload and masked permissions, directories, symbolic links with their targets, hard links sharing
     the inode of their target -/
 theorem extract_reproduces_partial (root : P) (mask : Nat) (es : List Entry) (fs : FS) (hr : GoodPath root)
-    (hio : InoOK fs) (hfresh : FreshRun root mask fs es) (hok : (tarExtract fs root mask es).2 = true) :
+    (hroot : root ≠ []) (hio : InoOK fs) (hfresh : FreshRun root mask fs es)
+    (hok : (tarExtract fs root mask es).2 = true) :
     ∀ e ∈ es, Final root mask e (tarExtract fs root mask es).1 :=
-  tar_reproduces root mask hr es fs hio hfresh hok
+  tar_reproduces root mask hr hroot es fs hio hfresh hok
+
+/-! ### the hypotheses are satisfiable, the theorems are not vacuous -/
+
+/-- `/` and `/d`; the destination is `/d` -/
+def demoFs : FS := { nodes := [([], .dir 0o755), ([[100]], .dir 0o755)] }
+def demoRoot : P := [[100]]
+
+example : GoodPath demoRoot := by
+  intro c hc; simp [demoRoot] at hc; subst hc; exact ⟨by decide, by decide⟩
+example : NoDots demoRoot := by
+  intro c hc; simp [demoRoot] at hc; subst hc; exact ⟨by decide, by decide⟩
+example : InoOK demoFs := by
+  intro p ino h
+  unfold FS.get demoFs at h
+  simp only [List.find?_cons, List.find?_nil] at h
+  split at h
+  · simp at h
+  · split at h <;> simp at h
+example : WF demoFs := by
+  intro p hp hl
+  unfold FS.get demoFs at hp
+  simp only [List.find?_cons, List.find?_nil] at hp
+  split at hp
+  · rename_i h; simp at h; rw [h] at hl; simp at hl
+  · split at hp
+    · rename_i h; simp at h; rw [← h] at hl; simp at hl
+    · simp at hp
+example : ∀ j, j < demoRoot.length → ∃ m, demoFs.get (demoRoot.take j) = some (.dir m) := by
+  intro j hj
+  have : j = 0 := by simp [demoRoot] at hj; omega
+  subst this; exact ⟨0o755, by decide⟩
+
+/-- the link-then-write-through attack (`l -> /e`, then `l/x`) is refused by both extractors -/
+example : (tarExtract demoFs demoRoot 0o777
+    [{ kind := .symlink, name := [108], link := [47, 101] }, { kind := .reg, name := [108, 47, 120], data := [1] }]).2 = false := by
+  decide
+example : (zipExtract demoFs demoRoot 0o777
+    [{ kind := .symlink, name := [108], link := [47, 101] }, { kind := .reg, name := [108, 47, 120], data := [1] }]).2 = false := by
+  decide
+/-- a benign archive (file `a`, hard link `h -> a`, directory `s/`) is extracted without error and is conflict-free -/
+example : (tarExtract demoFs demoRoot 0o755
+    [{ kind := .reg, name := [97], data := [1, 2] }, { kind := .link, name := [104], link := [97] },
+     { kind := .dir, name := [115, 47], mode := 0o700 }]).2 = true := by decide
+example : FreshRun demoRoot 0o755 demoFs
+    [{ kind := .reg, name := [97], data := [1, 2] }, { kind := .link, name := [104], link := [97] }] := by
+  simp only [FreshRun]
+  decide
 
 end C19
